@@ -93,7 +93,7 @@ func (s shape) line() string {
 func parseShape(line string) (shape, error) {
 	var s shape
 	ws := strings.Fields(line)
-	if len(ws) < 2 || (ws[0] != "run" && ws[0] != "probe-recycle" && ws[0] != "probe-persist-close") {
+	if len(ws) < 2 || (ws[0] != "run" && ws[0] != "probe-recycle" && ws[0] != "probe-persist-close" && ws[0] != "probe-pause-close") {
 		return s, fmt.Errorf("not a run line")
 	}
 	s.Kind = ws[0]
@@ -202,6 +202,13 @@ func (h) Gen(r *hlib.Rand, tier string, scale int, emit func(string)) {
 	// the recycling hand-off of postings iterators, driven directly through index.Snapshot: one goroutine
 	// seeks backwards (postingsIterator.Advance re-initialises itself after handing itself to the
 	// recycling list), the others allocate iterators of the same field from that list
+	// Close arriving while the persister sits in the catch-up loop of pausePersisterForMergerCatchUp
+	// (PersisterNapUnderNumFiles = 1, the merger held behind in its progress event)
+	for k := 0; k < 1+nPlain/40; k++ {
+		s := mk("plain", 0)
+		s.Kind, s.Dir, s.Ver, s.Stats, s.P, s.Unsafe, s.Across = "probe-pause-close", "fs", 1, 0, 4, false, false
+		emit(s.line())
+	}
 	// Close arriving while the introducer is inside introducePersist (gated through the verifTrace seam):
 	// the persister leaves prepareIntroducePersist through its `<-closeCh` case and cleans up the map it
 	// handed to the introducer
@@ -623,6 +630,8 @@ func childMain(line, rdir string) {
 		res = probeRecycle(sh, rdir)
 	} else if sh.Kind == "probe-persist-close" {
 		res = probePersistClose(sh, rdir)
+	} else if sh.Kind == "probe-pause-close" {
+		res = probePauseClose(sh, rdir)
 	} else {
 		res = scenario(sh, rdir)
 	}
@@ -1183,6 +1192,107 @@ func probePersistClose(sh shape, rdir string) result {
 	stats["api_goroutines"] = 2
 	stats["probe_gated"] = int(atomic.LoadInt32(&gated))
 	return result{"ok closed reopened acked_present", stats}
+}
+
+// probePauseClose: Close while the persister waits for the merger inside the `for` of
+// pausePersisterForMergerCatchUp. PersisterNapUnderNumFiles = 1 makes every pause after the first persisted
+// segment enter that loop until the merger has reported an epoch >= the last persisted one; the merger is
+// held in its EventKindMergerProgress callback (before it re-registers with the persister). The caller's
+// Batch has returned before Close. The `<-closeCh` case of that loop must leave the loop.
+func probePauseClose(sh shape, rdir string) result {
+	stats := map[string]int{}
+	path := filepath.Join(rdir, "idx")
+	cfg := bluge.DefaultConfig(path)
+	ic := cfg.VerifIndexConfig()
+	ic.PersisterNapUnderNumFiles = 1
+	ic.PersisterNapTimeMSec = 0
+	var held int32
+	release := make(chan struct{})
+	ic.EventCallback = func(e index.Event) {
+		if e.Kind == index.EventKindMergerProgress && atomic.AddInt32(&held, 1) == 1 {
+			select {
+			case <-release:
+			case <-time.After(15 * time.Second):
+			}
+		}
+	}
+	// the catch-up loop asks the directory for its file count once per iteration: count those calls
+	var dirStats uint64
+	innerDir := ic.DirectoryFunc
+	ic.DirectoryFunc = func() index.Directory { return &countDir{Directory: innerDir(), n: &dirStats} }
+	iw, err := index.OpenWriter(ic)
+	if err != nil {
+		return result{"open-error", stats}
+	}
+	r := hlib.NewRand(sh.Seed)
+	b := index.NewBatch()
+	for k := 0; k < 10; k++ {
+		id := fmt.Sprintf("d%d", k)
+		b.Update(bluge.Identifier(id), mkDoc(id, k, r))
+	}
+	if err := iw.Batch(b); err != nil { // safe batch: returns once persisted
+		return result{"batch-error", stats}
+	}
+	// wait until the persister is inside the catch-up loop: more pauses entered than resumed
+	inPause := false
+	for tries := 0; tries < 200 && !inPause; tries++ {
+		time.Sleep(10 * time.Millisecond)
+		st := iw.Stats()
+		inPause = atomic.LoadInt32(&held) >= 1 && st.TotPersisterSlowMergerPause > st.TotPersisterSlowMergerResume
+	}
+	if !inPause {
+		close(release)
+		_ = iw.Close()
+		return result{"probe-inadequate persister-not-in-catch-up-loop", stats}
+	}
+	done := make(chan error, 1)
+	t0 := time.Now()
+	go func() { done <- iw.Close() }()
+	// closeCh is closed now and the merger is still held, so nothing can satisfy the loop's own exit
+	// condition: the persister must leave the loop through the `<-closeCh` case. If it does, the directory
+	// is asked for its file count a few more times at most; if the case does not leave the loop the
+	// persister spins through select and Stats() for as long as the merger stays away.
+	time.Sleep(150 * time.Millisecond)
+	c0 := atomic.LoadUint64(&dirStats)
+	time.Sleep(150 * time.Millisecond)
+	spins := int(atomic.LoadUint64(&dirStats) - c0)
+	stats["probe_pause_dirstats_after_close"] = spins
+	// the merger is let go (it then leaves through its own close cases; whether it first hands the
+	// persister a new watcher — which would end a spinning loop by luck — is a coin toss of its select)
+	close(release)
+	select {
+	case <-done:
+	case <-time.After(20 * time.Second):
+		buf := make([]byte, 1<<20)
+		n := runtime.Stack(buf, true)
+		_ = os.WriteFile(filepath.Join(rdir, "close_timeout_goroutines.txt"), buf[:n], 0o644)
+		return result{fmt.Sprintf("close-timeout spins_after_close=%d ", spins) + stuckSummary(string(buf[:n])) + " dump=" + filepath.Join(rdir, "close_timeout_goroutines.txt"), stats}
+	}
+	if spins > 20 {
+		return result{fmt.Sprintf("close-spin the persister stayed in the catch-up loop of pausePersisterForMergerCatchUp after closeCh was closed: %d loop iterations in 150ms; Close returned only because the merger happened to hand over a new watcher", spins), stats}
+	}
+	stats["api_goroutines"] = 2
+	stats["probe_pause_close_ms"] = int(time.Since(t0).Milliseconds())
+	stats["probe_pause_reached"] = 1
+	rd, err := bluge.OpenReader(bluge.DefaultConfig(path))
+	if err != nil {
+		return result{"reopen-error " + strings.ReplaceAll(err.Error(), " ", "_"), stats}
+	}
+	defer rd.Close()
+	if n, _ := rd.Count(); n != 10 {
+		return result{fmt.Sprintf("lost writer=0 acked_docs=10 found=%d", n), stats}
+	}
+	return result{"ok closed reopened acked_present", stats}
+}
+
+type countDir struct {
+	index.Directory
+	n *uint64
+}
+
+func (d *countDir) Stats() (uint64, uint64) {
+	atomic.AddUint64(d.n, 1)
+	return d.Directory.Stats()
 }
 
 func sameState(want map[string]int, present map[string][]int, prefix string) bool {
